@@ -27,8 +27,9 @@ type Scenario struct {
 	Sched     string               `json:"sched"`
 	Seg       string               `json:"seg"`
 	Seed      int64                `json:"seed"`
-	Handler   string               `json:"handler"`   // "mem" (default) or "dir"
-	Flushable bool                 `json:"flushable"` // the connections implement transport.Flusher / TxBuffer
+	Handler   string               `json:"handler"`          // "mem" (default) or "dir"
+	Flushable bool                 `json:"flushable"`        // the connections implement transport.Flusher / TxBuffer
+	Robust    map[string]string    `json:"robust,omitempty"` // per station: "auto", "forced", "disabled" (the connection implements transport.Robust and records the calls), "" / "none"
 	Fault     *Fault               `json:"fault,omitempty"`
 }
 
@@ -211,6 +212,11 @@ func RunSessionOpts(sc *Scenario, st map[string]*Station, r *Recorder, configure
 			conn = &txEnd{End: l.End(name), rate: txRate}
 		} else if txRate < 0 {
 			conn = &txEnd{End: l.End(name), rate: -txRate, adversarial: true}
+		}
+		if m := sc.Robust[name]; m != "" && m != "none" {
+			lx := obs.lex[name]
+			conn = &robustEnd{Conn: conn, name: name, r: r, pend: lx.Pending}
+			setRobustMode(sess, m)
 		}
 		go func() {
 			var rt ret
